@@ -148,18 +148,28 @@ fn connect(case: &Value) -> Value {
     use ldap3::{LdapConnAsync, LdapConnSettings, StdStream};
     let mut url_s = case["url"].as_str().unwrap().to_string();
     let mut want_host = case["want_host"].as_str().map(|s| s.to_string());
+    let want_port = case["want_port"].as_u64().map(|p| p as u16);
     let mut _listener = None;
     if case["bind_unix"].as_bool() == Some(true) {
         // role-based replay for ldapi: a socket that really exists, named through a fully percent-encoded host
-        let path = format!("/tmp/verif_sock_{}", std::process::id());
+        let path = format!("/tmp/verif:sock_{}", std::process::id());
         let _ = std::fs::remove_file(&path);
         _listener = std::os::unix::net::UnixListener::bind(&path).ok();
         let enc: String = path.bytes().map(|b| if b.is_ascii_alphanumeric() { (b as char).to_string() } else { format!("%{:02X}", b) }).collect();
         url_s = match case["want_port"].as_u64() { Some(p) => format!("ldapi://{}:{}/", enc, p), None => format!("ldapi://{}/", enc) };
         want_host = Some(enc);
     }
+    let mut _stall = None;
+    if case["stall_listener"].as_bool() == Some(true) {
+        // role-based replay for the connection timeout: a peer that accepts the TCP connection and then says nothing
+        let l = std::net::TcpListener::bind("127.0.0.1:0").unwrap();
+        let port = l.local_addr().unwrap().port();
+        url_s = format!("ldap://127.0.0.1:{}/", port);
+        want_host = Some("127.0.0.1".into());
+        _stall = Some(std::thread::spawn(move || { if let Ok((s, _)) = l.accept() { std::thread::sleep(Duration::from_millis(2500)); drop(s); } }));
+    }
     let url = match url::Url::parse(&url_s) { Ok(u) => u, Err(e) => return json!({"r": "stub-mismatch", "why": format!("url parse: {}", e)}) };
-    let want_port = case["want_port"].as_u64().map(|p| p as u16);
+    let want_port = if case["stall_listener"].as_bool() == Some(true) { url.port() } else { want_port };
     if url.host_str().map(|s| s.to_string()) != want_host || url.port() != want_port {
         return json!({"r": "stub-mismatch", "host": url.host_str(), "port": url.port()});
     }
@@ -188,7 +198,7 @@ fn connect(case: &Value) -> Value {
     let r = rt.block_on(async { tokio::time::timeout(Duration::from_millis(1500), LdapConnAsync::from_url_with_settings(settings, &url)).await });
     match r {
         Err(_) => json!({"r": "hang"}),
-        Ok(Ok(_)) => { let _ = std::fs::remove_file(format!("/tmp/verif_sock_{}", std::process::id())); json!({"r": "ok", "from_std": from_std}) }
+        Ok(Ok(_)) => { let _ = std::fs::remove_file(format!("/tmp/verif:sock_{}", std::process::id())); json!({"r": "ok", "from_std": from_std}) }
         Ok(Err(e)) => json!({"r": "err", "kind": format!("{:?}", e).split(|c: char| !c.is_alphanumeric()).next().unwrap_or("").to_string(), "from_std": from_std}),
     }
 }
